@@ -23,7 +23,46 @@ var registry = map[string]checkFn{}
 
 func register(id string, fn checkFn) { registry[id] = fn }
 
+// childMode: when VERIF_CHILD_CASE names a file, this process is a fresh helper process: it
+// distils the listed pages in order and prints the canonical form of the last result.
+func childMode() bool {
+	p := os.Getenv("VERIF_CHILD_CASE")
+	if p == "" {
+		return false
+	}
+	b, err := os.ReadFile(p)
+	if err != nil {
+		fmt.Println("CHILD-ERROR read")
+		return true
+	}
+	var pages []c11Doc
+	if json.Unmarshal(b, &pages) != nil {
+		fmt.Println("CHILD-ERROR json")
+		return true
+	}
+	if f, err := os.OpenFile(os.DevNull, os.O_WRONLY, 0); err == nil {
+		os.Stderr = f
+	}
+	last := ""
+	for _, pg := range pages {
+		_, out := applyHTML(pg.HTML, pg.Opts)
+		switch {
+		case out.Panicked:
+			last = "panic"
+		case out.Err != nil:
+			last = "error: " + out.Err.Error()
+		default:
+			last = canonical(out.Res)
+		}
+	}
+	fmt.Print("CHILD-RESULT-BEGIN\n" + last + "\nCHILD-RESULT-END\n")
+	return true
+}
+
 func TestMain(m *testing.M) {
+	if childMode() {
+		os.Exit(0)
+	}
 	// logrus.New() captures the os.Stderr *variable* when a logger is built; point it at
 	// /dev/null so that log flags do not flood the driver. File descriptor 2 stays usable for
 	// the race detector and runtime fatals.
